@@ -7,14 +7,14 @@ import "strings"
 func registerProps() {
 	propTable["C01"] = PropDef{
 		Title:       "Key-value read-after-write: every read returns the last successful write",
-		Rules:       []string{"R-TXN", "R-COMMIT", "R-ROWCOMPLETE", "R-READ-NULL", "R-READ-ONCE", "R-LIVE", "R-COLL", "R-ERRPROP", "R-EVT-ROW", "R-RMW", "R-ERR-OVERWRITE"},
+		Rules:       []string{"R-TXN", "R-COMMIT", "R-ROWCOMPLETE", "R-READ-NULL", "R-READ-ONCE", "R-LIVE", "R-COLL", "R-ERRPROP", "R-EVT-ROW", "R-RMW", "R-ERR-OVERWRITE", "R-EXP"},
 		Scope:       map[string][]string{"R-RMW": {"WriteSubDoc", "SubdocInsert"}},
 		Explanation: "Decides necessary structural clauses, not the behaviour: (a) an operation that fails leaves the document as it was <= every row write runs on the handle of the one transaction (R-TXN) that the runner rolls back on every failing path and whose commit error is reported (R-COMMIT), and no statement error inside a transaction closure is dropped (R-ERRPROP) nor is a stored error replaced by a later step's before it was examined (R-ERR-OVERWRITE); (b) the last successful write is what is stored <= every body/tombstone/xattr statement assigns the complete row (R-ROWCOMPLETE) and the values bound into it are the operation's own (R-EVT-ROW); a read-modify-write of a body starts every attempt from a fresh read, so that what it stores is the document it last read plus its own change (R-RMW, sub-document writers); (c) missing if deleted <= the read helper maps a NULL body to the missing error (R-READ-NULL), read-side liveness tests use the body column (R-LIVE), reads are scoped to the receiver's collection (R-COLL).",
 		NotDecided:  "equality of returned bytes/CAS/expiry with a model over arbitrary histories; JSON encode/decode; nil bodies passed to Set/Add; purge visibility; value-level control flow inside Update's callback handling.",
 	}
 	propTable["C02"] = PropDef{
 		Title:       "Optimistic concurrency: a CAS-conditional write succeeds iff the CAS is current",
-		Rules:       []string{"R-CAS", "R-RMW", "R-INSERT-GUARD", "R-TXN", "R-COMMIT", "R-FLAGS"},
+		Rules:       []string{"R-CAS", "R-RMW", "R-INSERT-GUARD", "R-TXN", "R-COMMIT", "R-FLAGS", "R-COLL"},
 		Explanation: "For each of the nine collection entry points with an expected-CAS parameter, every statement that writes body or xattrs is guarded inside the same transaction closure by a SQL conjunct cas = <expected> or by a Go comparison with documents.cas read through the transaction, decided by cut-reachability on the SSA control-flow graph (R-CAS); sub-document writers and Update loops write back with the CAS they read (R-RMW); a rejected write changes nothing because it shares the rolled-back transaction (R-TXN, R-COMMIT); insert semantics for CAS 0 / AddOnly are governed by the conflict guard (R-INSERT-GUARD) and the option flags are enforced (R-FLAGS).",
 		NotDecided:  "behaviour of real interleavings (rests on SQLite isolation and the bucket mutex, trusted); which error value is returned; the pinned CAS-free resurrection of a tombstone by AddOnly.",
 	}
@@ -38,7 +38,7 @@ func registerProps() {
 	}
 	propTable["C06"] = PropDef{
 		Title:       "Insert-only writes never overwrite a live document, always create an absent one",
-		Rules:       []string{"R-INSERT-GUARD", "R-FLAGS", "R-TOMB", "R-CAS"},
+		Rules:       []string{"R-INSERT-GUARD", "R-FLAGS", "R-TOMB", "R-CAS", "R-LIVE"},
 		Explanation: "Every INSERT..ON CONFLICT DO UPDATE on documents (except the upsert primitive) restricts its update, as a top-level AND-conjunct, to rows without a body and has its RowsAffected consulted; Add/AddRaw reach only such guarded inserts (R-INSERT-GUARD); callers of the unconditional upsert primitive decide existence in Go through option flags that guard error returns (R-FLAGS); the guard's flag means 'no body' because the flag and the body are written together (R-TOMB); WriteCas' CAS-less insert variant is reachable only for CAS 0 / AddOnly (R-CAS).",
 		NotDecided:  "per-history truth of the 'iff'; nil bodies.",
 	}
@@ -62,7 +62,7 @@ func registerProps() {
 	}
 	propTable["C10"] = PropDef{
 		Title:       "Durability and crash atomicity of on-disk buckets",
-		Rules:       []string{"R-TXN", "R-ONE-TXN", "R-COMMIT", "R-HLC", "R-HLC-MARK-SQL", "R-DSN", "R-EXP-SQL", "R-OPENMODE", "R-OPEN-ERR"},
+		Rules:       []string{"R-TXN", "R-ONE-TXN", "R-COMMIT", "R-HLC", "R-HLC-MARK-SQL", "R-DSN", "R-EXP-SQL", "R-OPENMODE", "R-OPEN-ERR", "R-DROP"},
 		Explanation: "An open that fails after the bucket was registered would delete a store other handles share: no return carries an error after registration (R-OPEN-ERR). One transaction per operation containing row, marks and index rows (R-TXN, R-ONE-TXN, R-HLC/MARK, R-HLC-MARK-SQL); success is reported only after a successful Commit (R-COMMIT); durability options of the connection string (R-DSN); the reopen path keeps identity (schema initialised only when user_version is 0: R-OPENMODE), re-seeds the clock (R-HLC/SEED) and re-arms expiry from a query over all rows with exp > 0, overdue ones included (R-EXP-SQL, R-OPENMODE).",
 		NotDecided:  "SQLite/WAL/OS crash behaviour (trusted base); that acknowledged data is physically on disk.",
 	}
